@@ -717,6 +717,29 @@ def t1_property(pid, tier, seed, replay):
             elif len(direct) < 200:
                 direct.append(dict(case=c[idx], impl=a[idx], model=m[idx], message=msg, source=fam))
 
+    # C03 / C12: two corner scenarios with their own raw lock (harness bin/extras)
+    if pid in ("C03", "C12"):
+        try:
+            px = subprocess.run([os.path.join(BUILD, "cargo", "release", "extras")], stdout=subprocess.PIPE, stderr=subprocess.STDOUT, text=True, env=ENV, timeout=120)
+            xl = {l.split(";")[0]: dict(kv.split("=", 1) for kv in l.split(";")[1:] if "=" in kv) for l in px.stdout.splitlines() if ";" in l}
+        except Exception as e:
+            xl = {}; violations.append(dict(kind="crash", what=f"extras scenarios did not run: {e}"))
+        evidence["extras"] = xl
+        total += len(xl)
+        pb = xl.get("payload_bomb")
+        if pb is None or pb.get("third_member_released") != "true":
+            n_direct_seen += 1
+            direct.append(dict(case="extras: payload_bomb  (three members; the first two raw unlocks panic, the second with a payload whose destructor panics)",
+                               impl=str(pb), model="third_member_released=true", source="extras",
+                               message="a scoped call on a collection unwound and gave the key back while a member whose unlock does not panic is still locked (the unlock loop stopped at a panicking payload destructor)"))
+        if pid == "C12":
+            kw = xl.get("kill_while_waiting")
+            if kw is None or kw.get("waiter_got") == "guard" or kw.get("waiter_was_waiting") != "true":
+                n_direct_seen += 1
+                direct.append(dict(case="extras: kill_while_waiting  (A holds; B blocks in lock(); C's raw try_lock panics and kills the lock; A releases)",
+                                   impl=str(kw), model="waiter_got=refused", source="extras",
+                                   message="a thread that was already waiting when the lock was killed by a panicking raw operation is handed a usable guard afterwards (the kill flag is only tested before the blocking call)"))
+
     # C07: the zero-sized corner (recorded finding D9), reproduced against the real crate
     if pid == "C07":
         pz = subprocess.run([os.path.join(BUILD, "cargo", "release", "zst")], stdout=subprocess.PIPE, stderr=subprocess.STDOUT, text=True, env=ENV)
@@ -861,6 +884,12 @@ def do_replay(pid, cfg, path):
     case = j.get("case") or (j.get("first_disagreement") or {}).get("case")
     if not case:
         print(json.dumps(j, indent=1)); return 0
+    if case.startswith("extras:"):
+        print(json.dumps(j, indent=1)[:2000])
+        ok, out, dt = build_harness()
+        px = subprocess.run([os.path.join(BUILD, "cargo", "release", "extras")], stdout=subprocess.PIPE, stderr=subprocess.STDOUT, text=True, env=ENV)
+        print("now:"); print(px.stdout)
+        return 0
     if case.startswith("zst:"):
         print(json.dumps(j, indent=1)[:2000])
         ok, out, dt = build_harness()
